@@ -175,11 +175,19 @@ func TestC16Stream(t *testing.T) {
 	_, restore := captureLog()
 	defer restore()
 	streams := []uint16{0, 1, 2, 3, 4, 5, 6, 7, 8, 9, 10, 11, 12, 13, 14, 15, 65535}
-	rec.Suite("stream", len(streams)*len(streams)*2, func(c *ev.Case) {
+	// quick: every (CER stream, DWR stream) pair, application stream rotating; thorough: every triple
+	total := len(streams) * len(streams) * 2
+	if !rec.Quick() {
+		total *= len(streams)
+	}
+	rec.Suite("stream", total, func(c *ev.Case) {
 		a := streams[c.I%len(streams)]
 		b := streams[(c.I/len(streams))%len(streams)]
 		d := streams[(c.I*7+3)%len(streams)]
-		deferred := c.I/(len(streams)*len(streams)) == 1
+		if !rec.Quick() {
+			d = streams[(c.I/(len(streams)*len(streams)*2))%len(streams)]
+		}
+		deferred := (c.I/(len(streams)*len(streams)))%2 == 1
 		failCER := c.I%11 == 0
 		c.Class("stream/cer=%d/deferred=%v/fail=%v", a, deferred, failCER)
 		leak := runBubbleWD(t, rec, c, 60*time.Second, func() { runC16Stream(c, ctx, a, b, d, c.I%5 == 0, failCER, deferred) })
